@@ -23,7 +23,8 @@ class Case:
     driver (model and oracle); `oracle_applies` = the property's oracle has a verdict on it."""
 
     def __init__(self, kind, cfg, hline, lline=None, tag="", oracle_applies=True, impl=None, model=None,
-                 oracle=None, feats=(), nontrivial=True):
+                 oracle=None, feats=(), nontrivial=True, oracle_prefix=False):
+        self.oracle_prefix = oracle_prefix
         self.kind, self.cfg, self.hline, self.lline = kind, cfg, hline, lline or hline
         self.tag, self.oracle_applies = tag, oracle_applies
         self.impl, self.model, self.oracle = impl, model, oracle
@@ -32,7 +33,7 @@ class Case:
 
     def to_json(self):
         return {"kind": self.kind, "cfg": self.cfg, "hline": self.hline, "lline": self.lline, "tag": self.tag,
-                "oracle_applies": self.oracle_applies, "impl": self.impl, "model": self.model,
+                "oracle_applies": self.oracle_applies, "oracle_prefix": self.oracle_prefix, "impl": self.impl, "model": self.model,
                 "oracle": self.oracle, "feats": list(self.feats)}
 
 
@@ -108,7 +109,7 @@ def execute(ctx, cases, corr):
             continue
         if c.impl != c.model:
             corr["model_disagreements"].append(c)
-        if c.oracle_applies and c.impl != c.oracle:
+        if c.oracle_applies and (not c.impl.startswith(c.oracle) if c.oracle_prefix else c.impl != c.oracle):
             corr["oracle_failures"].append(c)
     corr["distinct_nontrivial"] += len(seen)
     step = max(1, len(cases) // 8)
@@ -299,9 +300,148 @@ def cases_c07(ctx, boost):
     return out
 
 
+# =============================================================================== C08 / C09
+def build_apdu(cla, ins, p1, p2, data, le, extended):
+    hdr = bytes([cla, ins, p1, p2])
+    n = len(data)
+    if not extended:
+        body = (bytes([n]) + data) if n else b""
+        if le is not None:
+            body += bytes([le % 256])
+        return hdr + body
+    body = (b"\x00" + n.to_bytes(2, "big") + data) if n else b""
+    if le is not None:
+        body += (le % 65536).to_bytes(2, "big") if n else b"\x00" + (le % 65536).to_bytes(2, "big")
+    return hdr + body
+
+
+def cases_c08(ctx, boost):
+    g = ctx.gen("000")
+    rng = g.rng
+    out = []
+    named = [0x20, 0x24, 0x2c, 0x47, 0x87, 0xa4, 0xc0, 0xcb, 0xdb, 0xb0, 0xd0]
+
+    def add(cla, ins, p1, data, le=None, ext=False, mode="view", tag=""):
+        if not ext and len(data) > 255:
+            ext = True
+        b = build_apdu(cla, ins, p1, rng.randrange(256), data, le, ext)
+        out.append(Case("apdu", "000", f"apdu {mode} {b.hex()}", tag=tag))
+
+    def auth_data(k, delta=0):
+        d = bytearray(rng.randbytes(65 + k + delta)) if 65 + k + delta >= 0 else bytearray()
+        if len(d) > 64:
+            d[64] = k
+        return bytes(d)
+
+    reg = rng.randbytes(64)
+    p1s = [0, 1, 2, 3, 4, 6, 7, 8, 9, 0x0B, 0x80, 0xFF]
+    inss = sorted(set([0, 1, 2, 3, 4, 5, 0x10, 0x7F, 0x80, 0xFE, 0xFF] + named))
+    if ctx.tier == "thorough":
+        inss = list(range(256))
+        p1s = sorted(set(p1s + list(range(0, 256, 17))))
+    # header space at a fixed data length (a valid authenticate body with a 3-byte key handle)
+    body = auth_data(3)
+    for cla in range(255):                     # 0xFF is not a class byte (iso7816 refuses it)
+        for ins in inss:
+            for p1 in (p1s if cla in (0, 1, 0x10, 0x80) or ctx.tier == "thorough" else [0, 3, 7]):
+                add(cla, ins, p1, body, tag="header space")
+    for ins in range(256):
+        for p1 in p1s:
+            add(0, ins, p1, body, tag="all instructions")
+            add(0, ins, p1, reg, tag="all instructions")
+    for p1 in range(256):
+        add(0, 2, p1, body, tag="all p1")
+    add(0xFF, 3, 0, b"", tag="class ff")
+    # data lengths on every decision boundary × 4 encodings × both entry points
+    lens = [0, 1, 31, 32, 33, 63, 64, 65, 66, 67, 128, 255, 256, 257, 319, 320, 321, 576, 577]
+    for ins in (1, 2, 3):
+        for n in lens:
+            for le in (None, 0, 1, 256):
+                for ext in (False, True):
+                    for mode in ("view", "cmd"):
+                        add(0, ins, 3, rng.randbytes(n), le, ext, mode, tag="length boundary")
+    for k in (0, 1, 2, 63, 64, 127, 128, 254, 255):
+        for delta in (-2, -1, 0, 1, 2, 255, 256, 257, 512):
+            for le in (None, 256):
+                for ext in (False, True):
+                    for p1 in (3, 7, 8):
+                        add(0, 2, p1, auth_data(k, delta), le, ext, tag="authenticate length")
+    for _ in range(300 * boost):
+        add(rng.choice([0, 0, 0, 1, 0x80]), rng.choice([1, 2, 3, 3, rng.randrange(256)]), rng.choice([3, 7, 8, rng.randrange(256)]),
+            rng.randbytes(rng.choice([0, 64, 65, 66, rng.randrange(400)])), rng.choice([None, 0, 5]), rng.random() < 0.3, tag="random")
+    # malformed framing
+    for _ in range(100):
+        out.append(Case("apdu", "000", f"apdu view {rng.randbytes(rng.randrange(0, 12)).hex() or '-'}", tag="raw bytes"))
+    return out
+
+
+def cases_c09(ctx, boost):
+    g = ctx.gen("000")
+    rng = g.rng
+    out = []
+
+    def hx(b):
+        return b.hex() or "-"
+
+    def add(resp, total, tag):
+        caps = {0, 1, 2, 64, 1500, 7609} | {c for c in HARNESS_CAPS + [0] if total - 3 <= c <= total + 3}
+        for cap in sorted(caps):
+            for prior in ([b"", rng.randbytes(min(cap, 3)), rng.randbytes(cap // 2)] if cap <= 300 else [b"", rng.randbytes(5)]):
+                if len(prior) > cap:
+                    continue
+                out.append(Case("u2fs", "000", f"u2fs {cap} {hx(prior)} {resp}", tag=tag, oracle_prefix=True))
+
+    # small responses: every capacity around every part boundary is instantiated (0..=40)
+    for pk, kh, cert, sig in [(3, 4, 5, 6), (0, 0, 0, 0), (1, 0, 2, 0), (65, 0, 0, 0)]:
+        r = f"reg:{rng.randrange(256)}:{hx(rng.randbytes(pk))}:{hx(rng.randbytes(kh))}:{hx(rng.randbytes(cert))}:{hx(rng.randbytes(sig))}"
+        for cap in range(0, 41):
+            for prior in (b"", rng.randbytes(min(cap, 2)), rng.randbytes(min(cap, 19))):
+                out.append(Case("u2fs", "000", f"u2fs {cap} {hx(prior)} {r}", tag="register small", oracle_prefix=True))
+    khs = list(range(0, 256, 1 if ctx.tier == "thorough" else 15)) + [254, 255]
+    for kh in khs:
+        cert = rng.choice([0, 1, 300, 1023, 1024])
+        sig = rng.choice([0, 1, 70, 71, 72])
+        r = f"reg:5:{hx(rng.randbytes(65))}:{hx(rng.randbytes(kh))}:{hx(rng.randbytes(cert))}:{hx(rng.randbytes(sig))}"
+        add(r, 1 + 65 + 1 + kh + cert + sig, "register")
+    for cert in ([0, 1, 2, 255, 256, 257, 1022, 1023, 1024] if ctx.tier == "quick" else range(0, 1025, 3)):
+        r = f"reg:5:{hx(rng.randbytes(65))}:{hx(rng.randbytes(64))}:{hx(rng.randbytes(cert))}:{hx(rng.randbytes(72))}"
+        add(r, 1 + 65 + 1 + 64 + cert + 72, "register cert")
+    for count in (0, 1, 0xFF, 0x100, 0xFFFF, 0x10000, 0x01020304, 0xFFFFFF, 0x1000000, 0xFFFFFFFF):
+        for sig in (0, 1, 35, 71, 72):
+            r = f"auth:{rng.randrange(256)}:{count}:{hx(rng.randbytes(sig))}"
+            add(r, 5 + sig, "authenticate")
+    add(f"ver:{b'U2F_V2'.hex()}", 6, "version")
+    add(f"ver:{rng.randbytes(6).hex()}", 6, "version")
+    for xl, yl in [(32, 32), (0, 0), (31, 32), (32, 31), (1, 1), (32, 0)]:
+        out.append(Case("regnew", "000", f"regnew {hx(rng.randbytes(xl))} {hx(rng.randbytes(yl))}", tag="Response::new"))
+    return out
+
+
 NOT_YET = {}
 
 PROPS = {
+    "C08": {"ns": "C08", "cases": cases_c08,
+            "level_text": "Proof. Hand model of TryFrom<CommandView> for ctap1::Request with the three try_into().unwrap() "
+                          "sites and the slice indexing as explicit panic outcomes and the Instruction::Unknown quirk; theorem "
+                          "parse_spec: for all class / instruction / P1 bytes and data of any length the model returns (never "
+                          "panics) exactly the specification's decision list; class_first and version_any are corollaries. "
+                          "Obligation: the control-byte table extracted from the source = {7,3,8} over all 256 bytes. "
+                          "iso7816's APDU framing (parse_lengths) is a dependency: modelled, exercised by correspondence over "
+                          "4 length encodings and both entry points, not proved.",
+            "rule": "254 classes × instruction set × P1 set at a fixed body; all 256 instructions; all 256 P1; data lengths on "
+                    "every boundary × {short, extended} × {no Le, Le} × {CommandView, Command<7609>}; random and malformed APDUs",
+            "assumptions": ["iso7816 0.1.4 framing behaves as modelled (App. A)"]},
+    "C09": {"ns": "C09", "cases": cases_c09,
+            "level_text": "Proof. Hand model of ctap1::Response::serialize as a chain of atomic bounded appends with early "
+                          "return; theorem serialize_spec: for every response, prior buffer content and capacity the call "
+                          "succeeds iff prior+layout fits and then leaves prior ++ layout (layout from the U2F raw message "
+                          "format, big-endian counter by division), otherwise reports failure with prior still a prefix; "
+                          "register_public_key: 0x04||x||y without panic for coordinates <= 32 bytes, 65 bytes iff both are 32. "
+                          "Correspondence: every capacity 0..=40 around every part boundary of small responses, key handles "
+                          "0..=255, certificates to 1024, signatures to 72, counter boundaries, pre-filled buffers.",
+            "rule": "register / authenticate / version responses × capacities {0..40 complete for small responses; window ±3 "
+                    "around the total; 64, 1500, 7609} × prior {empty, short, half}",
+            "assumptions": ["on failure only 'prior is a prefix' is specified; the oracle compares the verdict, the model the bytes"]},
     "C07": {"ns": "C07", "cases": cases_c07,
             "level_text": "Proof. Hand model of AuthenticatorData::serialize / AttestedCredentialData::serialize as a chain of "
                           "atomic bounded appends (chain_none / chain_some / chain_too_long), with the extension map arriving in "
